@@ -610,6 +610,7 @@ class Namespace(Evaluatable[Options]):
                     default=value.default,
                     doc=value.__doc__ or "",
                     type=value.type,
+                    domain=value.domain,
                 )
             elif isinstance(value, _Auto):
                 members[name_] = value
@@ -636,7 +637,11 @@ class Namespace(Evaluatable[Options]):
                     value._inherit(parent)
                     if isinstance(value, Namespace)
                     else Option(
-                        f"{parent}.{value.key}", value.default, doc=value.__doc__ or ""
+                        f"{parent}.{value.key}",
+                        value.default,
+                        doc=value.__doc__ or "",
+                        type=value.type,
+                        domain=value.domain,
                     )
                     if isinstance(value, Option)
                     else value
